@@ -1,22 +1,34 @@
 #!/usr/bin/env python3
-"""tools/import_seed.py <ID> [k ...] — copy /tmp/seed_<ID>/out/<k>/ into seeded/<ID>_<k>/ with a meta.json skeleton (default k = 1 2)"""
+"""tools/import_seed.py <ID> <srcdir> <k_from>:<k_to> ["needs text"]
+copy <srcdir>/{patch.diff,demo.py,notes.md|note.txt} into seeded/<ID>_<k_to>/ with a meta.json skeleton.
+Example: tools/import_seed.py C13 /tmp/seedgen3_C13/seed_out/change1 5 "bc/bca with NaN replicates ..."
+"""
 import json, shutil, sys
 from pathlib import Path
-pid = sys.argv[1]
-for k in (sys.argv[2:] or ["1", "2"]):
-    src = Path(f"/tmp/seed_{pid}/out/{k}")
-    if not (src / "patch.diff").exists() or (src / "patch.diff").stat().st_size == 0:
-        print("missing", src); continue
-    dst = Path(f"/verif/seeded/{pid}_{k}")
-    dst.mkdir(parents=True, exist_ok=True)
-    shutil.copy(src / "patch.diff", dst / "patch.diff")
-    shutil.copy(src / "demo.py", dst / "demo.py")
-    note = (src / "note.txt").read_text() if (src / "note.txt").exists() else ""
-    meta = {"property": pid, "origin": "written by an independent sub-agent given only the property text and a scratch worktree of /repo",
-            "what": note.strip()[:1500], "needs": ""}
-    # first line mentioning 'need' as the short form
+
+pid, src, k = sys.argv[1], Path(sys.argv[2]), sys.argv[3]
+needs = sys.argv[4] if len(sys.argv) > 4 else ""
+if not (src / "patch.diff").exists() or (src / "patch.diff").stat().st_size == 0:
+    sys.exit(f"missing {src}/patch.diff")
+dst = Path(__file__).resolve().parent.parent / "seeded" / f"{pid}_{k}"
+dst.mkdir(parents=True, exist_ok=True)
+shutil.copy(src / "patch.diff", dst / "patch.diff")
+shutil.copy(src / "demo.py", dst / "demo.py")
+note = ""
+for nm in ("notes.md", "note.txt"):
+    if (src / nm).exists():
+        note = (src / nm).read_text()
+meta = {"property": pid,
+        "origin": "written by an independent sub-agent given only the property text and a scratch worktree of /repo",
+        "what": note.strip()[:1500], "needs": needs}
+if not needs:
     for ln in note.splitlines():
         if "need" in ln.lower() or "manifest" in ln.lower():
-            meta["needs"] = ln.strip()[:300]; break
-    (dst / "meta.json").write_text(json.dumps(meta, indent=1))
-    print("imported", dst)
+            meta["needs"] = ln.strip()[:300]
+            break
+meta["what_was_run"] = ("tools/seeded.py verify <name>: scratch worktree of /repo outside /repo and /verif; demo.py on the clean "
+                        "tree (exit 0), git apply patch.diff, full pytest suite (384 passed), demo.py (exit 1); worktree removed. "
+                        "tools/seeded.py run <name>: scratch worktree with the patch applied, SA_REPO=<worktree> ./check <property> "
+                        "--tier quick, worktree removed.")
+(dst / "meta.json").write_text(json.dumps(meta, indent=1))
+print("imported", dst)
